@@ -32,6 +32,9 @@ var clientAlphabet = []SIn{
 	vs("negotiating", "", 9, 0, []string{"tls"}, []string{"none"}, nil, "", "", nil),           // 17 offer without id
 	vs("authenticating", "S2", 9, 0, nil, nil, nil, "", "", ip(9)),                             // a round trip under another session id
 	vs("negotiating", "S1", 9, 0, nil, nil, nil, "rot13", "none", nil),                         // a confirmation of an encryption nobody knows
+	// members that Model C does not look at: a failed envelope without its reason; an established one with a pp
+	{Kind: "ses", Ses: &VSes{State: "failed", ID: "S1", From: 9, Bare: true}},
+	{Kind: "ses", Ses: &VSes{State: "established", ID: "S1", From: 9, To: 5, PP: 4}},
 	{Kind: "data"}, // 18
 	{Kind: "bad"},  // 19
 	{Kind: "eof"},  // 20
@@ -64,6 +67,11 @@ func init() {
 			return err
 		} else if ok {
 			c := &CCase{Conf: rc.Conf, Script: rc.Script, Obs: runClientScript(rc.Conf, rc.Script)}
+			if rc.Obs != nil && rc.Obs.Client != nil {
+				p, pan := runClientEstablishIsolated(rc.Conf, rc.Script)
+				c.Obs.Client = &p
+				c.Obs.ClientPanic = pan
+			}
 			env.Add(c.Coq(), c)
 			return nil
 		}
@@ -84,8 +92,9 @@ func init() {
 						// what the high-level Client makes of a handshake that returned a session without an error
 						// (every such script that did not establish, and a sample of those that did)
 						if conf.Kind == "mem" && strings.HasPrefix(obs.Out, "ret:") && (obs.Out != "ret:established" || clientRuns%7 == 0) && clientRuns < clientRunsMax {
-							p := runClientEstablish(conf, script)
+							p, pan := runClientEstablishIsolated(conf, script)
 							obs.Client = &p
+							obs.ClientPanic = pan
 							env.Count("client-establish")
 						}
 						if strings.HasPrefix(obs.Out, "ret:") {
